@@ -6,6 +6,7 @@ import (
 	"io/ioutil"
 	"math/rand"
 	"os"
+	"os/exec"
 	"path/filepath"
 	"regexp"
 	"strconv"
@@ -126,9 +127,23 @@ func (c12) Run(c *fw.Ctx) {
 			files[rel] = l
 		}
 	}
+	// names with whitespace at their edges, sorting first / last in their directory
+	for _, name := range []string{" lead.wsp", "mid.wsp", "zz-tail.wsp "} {
+		rel := filepath.Join(caseDir, "edge", name)
+		writeFixture(filepath.Join(served, rel), l1, genContent(r, l1, vnow, 0.5), vnow)
+		files[rel] = l1
+	}
 	corrupt := filepath.Join(caseDir, "itemA", "corrupt.bin")
 	ioutil.WriteFile(filepath.Join(served, corrupt), []byte("this is not a whisper file at all, not even close......"), 0644)
 	mustMkdir(filepath.Join(served, caseDir, "emptyitem"))
+	// an item whose files are truncated: every sum over it fails (in the long-lived server process too)
+	{
+		good := readFileOrNil(filepath.Join(served, caseDir, "itemA", odd[0]))
+		mustMkdir(filepath.Join(served, caseDir, "broken"))
+		for i := 0; i < 4; i++ {
+			ioutil.WriteFile(filepath.Join(served, caseDir, "broken", fmt.Sprintf("t%d.wsp", i)), good[:len(good)/2], 0644)
+		}
+	}
 	var rels []string
 	for rel := range files {
 		rels = append(rels, rel)
@@ -136,7 +151,33 @@ func (c12) Run(c *fw.Ctx) {
 	sortStrings(rels)
 
 	sawData, sawNE, sawErr := false, false, false
+	hung := false
+	// remote runs f with a generous watchdog: the real clients have no timeout of their own, so a server that
+	// stops answering would otherwise block the worker until its own watchdog (an inconclusive run)
+	remote := func(kind string, desc fw.J, f func()) bool {
+		if hung {
+			return false
+		}
+		done := make(chan struct{})
+		go func() { f(); close(done) }()
+		select {
+		case <-done:
+			return true
+		case <-time.After(90 * time.Second):
+			hung = true
+			c.Violationf("remote-request-hangs:"+kind, desc, "%s through the server did not return within 90 s (the local call returned at once)", kind)
+			// this worker's server is unusable now: the next case starts a fresh one
+			if cm, ok := c.Env.State["server_cmd"].(*exec.Cmd); ok && cm.Process != nil {
+				cm.Process.Kill()
+			}
+			delete(c.Env.State, "server_url")
+			return false
+		}
+	}
 	pair := func(kind string, desc fw.J, lerr, rerr error, cmp func() string) {
+		if hung {
+			return
+		}
 		c.Count("pairs_"+kind, 1)
 		lc, rc := classify(lerr), classify(rerr)
 		desc["local_err"], desc["remote_err"] = fmt.Sprint(lerr), fmt.Sprint(rerr)
@@ -205,7 +246,10 @@ func (c12) Run(c *fw.Ctx) {
 		switch r.Intn(9) {
 		case 0, 1, 2, 3:
 			lh, lt, lerr := wcmd.VerifReadWhisperFile(served, rel, sel, u32(from), u32(until), u32(now))
-			rh, rt, rerr := wcmd.VerifReadWhisperFile(u, rel, sel, u32(from), u32(until), u32(now))
+			var rh *wt.Header
+			var rt wcmd.TimeSeriesList
+			var rerr error
+			remote("view", fw.J{"file": rel, "archive": sel}, func() { rh, rt, rerr = wcmd.VerifReadWhisperFile(u, rel, sel, u32(from), u32(until), u32(now)) })
 			pair("view", fw.J{"file": rel, "archive": sel, "from": from, "until": until, "now": now, "window": wk}, lerr, rerr, func() string {
 				if lh.String() != rh.String() {
 					return "headers differ: " + lh.String() + " vs " + rh.String()
@@ -228,7 +272,10 @@ func (c12) Run(c *fw.Ctx) {
 			})
 		case 4, 5:
 			lh, lp, lerr := wcmd.VerifReadWhisperFileRaw(served, rel, sel)
-			rh, rp, rerr := wcmd.VerifReadWhisperFileRaw(u, rel, sel)
+			var rh *wt.Header
+			var rp wcmd.PointsList
+			var rerr error
+			remote("view_raw", fw.J{"file": rel, "archive": sel}, func() { rh, rp, rerr = wcmd.VerifReadWhisperFileRaw(u, rel, sel) })
 			pair("view_raw", fw.J{"file": rel, "archive": sel}, lerr, rerr, func() string {
 				if lh.String() != rh.String() {
 					return "headers differ"
@@ -239,10 +286,13 @@ func (c12) Run(c *fw.Ctx) {
 				return plEqual(lp, rp)
 			})
 		case 6:
-			item := []string{caseDir + ".itemA", caseDir + ".itemB", caseDir + ".deep.er", caseDir + ".emptyitem", caseDir + ".nosuch"}[r.Intn(5)]
+			item := []string{caseDir + ".itemA", caseDir + ".itemB", caseDir + ".deep.er", caseDir + ".emptyitem", caseDir + ".nosuch", caseDir + ".broken", caseDir + ".broken"}[r.Intn(7)]
 			pat := []string{"*.wsp", "*.wsp", "plain.wsp", "zz*.wsp", "*"}[r.Intn(5)]
 			lh, lt, lerr := wcmd.VerifSumWhisperFile(served, item, pat, sel, u32(from), u32(until), u32(now))
-			rh, rt, rerr := wcmd.VerifSumWhisperFile(u, item, pat, sel, u32(from), u32(until), u32(now))
+			var rh *wt.Header
+			var rt wcmd.TimeSeriesList
+			var rerr error
+			remote("sum", fw.J{"item": item, "pattern": pat, "archive": sel}, func() { rh, rt, rerr = wcmd.VerifSumWhisperFile(u, item, pat, sel, u32(from), u32(until), u32(now)) })
 			pair("sum", fw.J{"item": item, "pattern": pat, "archive": sel, "from": from, "until": until, "now": now}, lerr, rerr, func() string {
 				if lh.String() != rh.String() {
 					return "headers differ"
@@ -250,9 +300,11 @@ func (c12) Run(c *fw.Ctx) {
 				return tslEqual(lt, rt)
 			})
 		case 7:
-			pat := []string{caseDir + "/*/*.wsp", caseDir + "/itemA/*", caseDir + "/deep/er/*.wsp", caseDir + "/zz*/*.wsp", caseDir + "/[", caseDir + "/itemA/with*", caseDir + "/*/*%*", caseDir + "/item*/*.wsp", caseDir + "/*/er/*.wsp"}[r.Intn(9)]
+			pat := []string{caseDir + "/*/*.wsp", caseDir + "/itemA/*", caseDir + "/deep/er/*.wsp", caseDir + "/zz*/*.wsp", caseDir + "/[", caseDir + "/itemA/with*", caseDir + "/*/*%*", caseDir + "/item*/*.wsp", caseDir + "/*/er/*.wsp", caseDir + "/edge/*", caseDir + "/edge/*.wsp*"}[r.Intn(11)]
 			ln, lerr := wcmd.VerifGlobFiles(served, pat)
-			rn, rerr := wcmd.VerifGlobFiles(u, pat)
+			var rn []string
+			var rerr error
+			remote("files", fw.J{"pattern": pat}, func() { rn, rerr = wcmd.VerifGlobFiles(u, pat) })
 			if strings.HasSuffix(pat, "[") {
 				c.Count("bad_pattern_pairs", 1)
 			}
@@ -265,7 +317,9 @@ func (c12) Run(c *fw.Ctx) {
 		default:
 			pat := []string{caseDir + "/*", caseDir + "/item*", caseDir + "/deep/*", caseDir + "/zz*", caseDir + "/[a", caseDir + "/*/*", caseDir + "/*/er", caseDir + "/deep*/*"}[r.Intn(8)]
 			ln, lerr := wcmd.VerifGlobItems(served, pat)
-			rn, rerr := wcmd.VerifGlobItems(u, pat)
+			var rn []string
+			var rerr error
+			remote("items", fw.J{"pattern": pat}, func() { rn, rerr = wcmd.VerifGlobItems(u, pat) })
 			if strings.HasSuffix(pat, "[a") {
 				c.Count("bad_pattern_pairs", 1)
 			}
